@@ -8,6 +8,12 @@ rc=0
 for d in crates/*/; do
   c=$(basename "$d")
   [ -f "$d/Cargo.toml" ] || continue
+  if [ "$c" = "h-exec-wasm" ]; then
+    # needs the repository's pinned toolchain (the only one with the wasm32 target) and its own target dir
+    if RUSTUP_TOOLCHAIN=1.93.0 CARGO_TARGET_DIR=target-wasm cargo build --offline --release -p "$c" >/tmp/verif-setup-$c.log 2>&1; then
+      echo "[setup] $c ok"; else echo "[setup] $c FAILED"; tail -5 /tmp/verif-setup-$c.log; fi
+    continue
+  fi
   if cargo build --offline --release -p "$c" >/tmp/verif-setup-$c.log 2>&1; then
     echo "[setup] $c ok"
   else
